@@ -83,7 +83,7 @@ func sigOf(bad string) string {
 }
 
 // payload units for string contents (source spellings)
-var stringUnits = []string{"a", " ", `\"`, `\\`, `\n`, `\t`, `\u0007`, "\x7f", `\u007f`, "é", "\U0001F600", `é`, "/", `\/`, `\r`, "'", "#", "{"}
+var stringUnits = []string{"a", " ", `\"`, `\\`, `\n`, `\t`, `\u0007`, "\x7f", `\u007f`, "é", "\U0001F600", `é`, "/", `\/`, `\r`, "'", "#", "{", "\ufffd", `\uFFFD`}
 var blockUnits = []string{"a", " ", `"`, `\"""`, "\n", "\t", `\`, "é", "\U0001F600", "\r", "  ", "#"}
 
 // templates with one literal slot
